@@ -213,6 +213,8 @@ func runC20(c *Ctx) {
 	checkE2eOverride(c, sackMethods)
 	checkOptionScan(c)
 	checkRecvVerdictGuard(c)
+	// shared with C10 (R10.7): the capability verdict reaches the selector only if the engine looks at what every poll returned
+	checkPollResultClassified(c)
 	_ = R
 }
 
